@@ -6,7 +6,7 @@ J=${1:-4}; PAT=${2:-C}
 out=/tmp/seedregress; rm -rf $out; mkdir -p $out
 ls -d seeded/${PAT}* | grep -E "seeded/C[0-9]{2}[a-z]?$" | xargs -P $J -I{} bash -c '
   d={}; n=$(basename $d); id=${n:0:3}
-  r=$(ISO=/tmp/iso.sr.$n tools/seediso.sh $d $id 2>&1 | grep -E "^(VIOLATION|OK|KNOWN)|patch does not apply" | head -1 | cut -c1-160)
+  r=$(ISO=/tmp/iso.sr.$n tools/seediso.sh $d $id 2>&1 | grep -E "^(VIOLATION|OK)|patch does not apply" | head -1 | cut -c1-160)
   echo "$n $r" >> /tmp/seedregress/summary.txt'
 sort $out/summary.txt
 echo "detected: $(grep -c VIOLATION $out/summary.txt) of $(wc -l < $out/summary.txt); without concrete input: $(grep -c no-failing-input-found $out/summary.txt)"
